@@ -128,8 +128,8 @@ Definition cbc_enc_bytes (k iv d : bytes) : bytes := concat (cbc_enc k iv (block
 Definition cbc_dec_bytes (k iv d : bytes) : bytes := concat (cbc_dec k iv (blocks d)).
 
 (* ---- functional level ---- *)
-(* AESCBCEncrypt(dst, plainText, key, iv): final content of dst *)
-Definition cbc_encrypt (dst plain key iv : bytes) : res bytes :=
+(* AESCBCEncrypt(dst, plainText, key, iv): dst after the two copies, before CryptBlocks *)
+Definition cbc_encrypt_prep (dst plain key iv : bytes) : res bytes :=
   if negb (good_key key) then Err E_NEWCIPHER else
   let pl := BS - masked (length plain) in
   let d1 := copy_into dst plain in                                   (* copy(dst, plainText) *)
@@ -140,7 +140,14 @@ Definition cbc_encrypt (dst plain key iv : bytes) : res bytes :=
       let d2 := firstn (length plain) d1 ++ copy_into (skipn (length plain) d1) pat in
       if negb (length iv =? BS) then Panic else                      (* NewCBCEncrypter: IV length *)
       if negb (length d2 mod BS =? 0) then Panic else                (* CryptBlocks: input not full blocks *)
-      Ok (cbc_enc_bytes key iv d2)
+      Ok d2
+  end.
+(* final content of dst *)
+Definition cbc_encrypt (dst plain key iv : bytes) : res bytes :=
+  match cbc_encrypt_prep dst plain key iv with
+  | Ok d2 => Ok (cbc_enc_bytes key iv d2)
+  | Err e => Err e
+  | Panic => Panic
   end.
 
 (* AESCBCDecrypt(dst, cipherText, key, iv): (n, final content of dst) *)
